@@ -207,11 +207,13 @@ Section TreeOf.
 End TreeOf.
 
 (* ---------- which queries the link covers ----------
-   Two features of bleve's construction have no counterpart in [sem]; queries that exercise them
-   are excluded here and shown to be genuine discrepancies in LinkProofs.v:
-     - a boolean query with BOTH must and should clauses and min_should <= -1: int(min) is then a
-       non-zero (negative) Min(), so BooleanSearcher treats should as required, while
-       [sem] (floor min <= count) treats it as optional;
+   One feature of bleve's construction has no counterpart in [sem]; queries that exercise it
+   are excluded here and shown to be a genuine discrepancy in LinkExamples.v:
+     - (no longer excluded) a boolean query with BOTH must and should clauses and min_should <= -1:
+       int(min) is then a negative Min(); BooleanSearcher used to compare Min() with 0 exactly and
+       so treated should as required, while [sem] (floor min <= count) treats it as optional.
+       Fixed in /repo 895ea25 ("Min() <= 0"); Machines.v says the same and the link covers it
+       (LinkExamples.link_negative_min_values);
      - a disjunction / should list with exactly ONE clause and int(min) >= 2 (rejected by
        DisjunctionQuery.Validate, which Index.Search does not call): alone it matches nothing, but
        under score "none" an enclosing compound takes the child's reader and ignores the min.
@@ -224,8 +226,7 @@ Fixpoint linkable (q : query) {struct q} : bool :=
   | QConj ks => forallb linkable ks
   | QDisj min2 ks => single_min_ok min2 ks && forallb linkable ks
   | QBool must should min2 mustnot filter =>
-      (negb (nonempty must) || negb (nonempty should) || (-1 <=? min2))
-      && single_min_ok min2 should
+      single_min_ok min2 should
       && forallb linkable must && forallb linkable should && forallb linkable mustnot
       && match filter with Some fq => linkable fq | None => true end
   | _ => true
